@@ -542,6 +542,8 @@ fn plan_base(prop: &str) -> Vec<Item> {
             for pool in [1, 2] {
                 v.push(it("pool_census", &format!("pool={},n=2,phases=3", pool), Some(if pool == 1 { 2 } else { 1 }), if pool == 1 { 3 } else { 2 }));
             }
+            v.push(it("pool_census", "pool=1,n=2,phases=0,dbg=1", Some(2), 3));
+            v.push(it("pool_census", "pool=2,n=2,phases=0,dbg=1", Some(0), 1));
             v.push(it("pool_census", "pool=1,n=3,phases=0", Some(1), 2));
             v.push(it("pool_census", "pool=2,n=3,phases=0", Some(0), 1));
             v.push(it("pool_census", "pool=0,n=3,phases=0", Some(2), 3));
